@@ -136,6 +136,10 @@ pub async fn render_to_string_await_suspense(f: impl FnOnce() -> View) -> String
             });
             rx.await.unwrap();
             handle.unwrap().dispose();
+            // The render is finished: release what is left of it in the root as well (the effect
+            // above, counters in the global scope, ...) instead of keeping it until the next
+            // render on this thread.
+            SSR_ROOT.with(|root| root.dispose());
             IS_HYDRATING.set(is_hydrating);
         }).await;
         let mut buf = String::new();
@@ -253,6 +257,10 @@ pub fn render_to_string_stream(
                         // There can be more futures now. Add them to pending_futures.
                         pending_futures.extend(futures.take());
                     }
+                    // Every fragment has been sent: the render is finished. Release everything it
+                    // created (and run the cleanup callbacks) now instead of keeping it until the
+                    // next render on this thread.
+                    SSR_ROOT.with(|root| root.dispose());
                 });
 
             });
